@@ -141,6 +141,9 @@ def run(rep, tier):
     cas = [(b, i, ev) for b, i, ev in ao.all_events() if ev.get("k") == "call" and callee_short(ev).startswith("compare_exchange")]
     if len(cas) != 1:
         raise AnalysisBroken("add_op_state: expected one compare_exchange")
+    HEAD = P(cas[0][2].get("recv"))             # the list head: the atomic member add_op_state pushes onto (its name is free)
+    if not HEAD.startswith("this->"):
+        raise AnalysisBroken("add_op_state: the compare-exchange is not on a member (%s)" % HEAD)
     b, i, ev = cas[0]
     fb = ff.before.get((b, i)) or frozenset()
     OPN = ao.params[0]["name"] + "->next"        # the new waiter's link field (the parameter's name is free)
@@ -164,7 +167,7 @@ def run(rep, tier):
                 rep.ok("C04.R2", ao, "returns %s on the right edge" % T(v))
     # ---- R3
     dn = [f for f in D.find("^" + BASE + "::done$") if f.parent == -1][0]
-    xs = [(b, i, ev) for b, i, ev in dn.all_events() if ev.get("k") == "call" and callee_short(ev) == "exchange" and P(ev.get("recv")) == "this->op_state_head"]
+    xs = [(b, i, ev) for b, i, ev in dn.all_events() if ev.get("k") == "call" and callee_short(ev) == "exchange" and P(ev.get("recv")) == HEAD]
     cont = [(b, i, ev) for b, i, ev in dn.all_events() if ev.get("k") == "call" and callee_short(ev) == "continuation"]
     if len(xs) == 1 and "this" in T(xs[0][2]["args"][0]) and (xs[0][2].get("mo") or [""])[0] in ("memory_order_acq_rel", "memory_order_seq_cst"):
         rep.ok("C04.R3", dn, "done(): one op_state_head.exchange(this, acq_rel)")
@@ -267,7 +270,7 @@ def run(rep, tier):
         if f.kind in ("ctor",):
             continue
         for b, i, ev in f.all_events():
-            if ev.get("k") == "call" and ev.get("recv") is not None and P(ev["recv"]) == "this->op_state_head" and callee_short(ev) != "load":
+            if ev.get("k") == "call" and ev.get("recv") is not None and P(ev["recv"]) == HEAD and callee_short(ev) != "load":
                 nmods += 1
                 mo = (ev.get("mo") or ["memory_order_seq_cst"])[0]
                 if callee_short(ev) in ("compare_exchange_weak", "compare_exchange_strong", "exchange") and mo in ("memory_order_acq_rel", "memory_order_seq_cst"):
